@@ -173,3 +173,16 @@ Theorem C14_source_thin_bodies :
   thin_of "fmt::LowerHex for GenericArray<u8,N>" "fmt" = Some "generic_hex :: < _ , false > (self , f)" /\
   thin_of "fmt::UpperHex for GenericArray<u8,N>" "fmt" = Some "generic_hex :: < _ , true > (self , f)".
 Proof. repeat split. Qed.
+
+(* ---- T2: the bounds of the trait impls this property's operations come from, as they stand in the source now
+        (coq/gen/GenSigs.v gen_impl_bounds): code that is generic over the lengths / element type and states
+        exactly these bounds can call them ---- *)
+From Coq Require Import String.
+From GA Require Import SigDefs.
+From GAGen Require Import GenSigs.
+Local Open Scope string_scope.
+
+Theorem C14_source_impl_bounds :
+  bounds_of "fmt::LowerHex for GenericArray<u8,N>" = Some ["N:Add<N>"; "N:ArrayLength"; "Sum<N,N>:ArrayLength"] /\
+  bounds_of "fmt::UpperHex for GenericArray<u8,N>" = Some ["N:Add<N>"; "N:ArrayLength"; "Sum<N,N>:ArrayLength"].
+Proof. repeat split. Qed.
